@@ -73,7 +73,7 @@ Definition pep440_finish (p4 : list N) : list N :=
 Lemma convert_stages vp :
   convert_to_pep440 vp =
   pep440_finish (pep440_names_pass vp (filter pep440_keep (sreplace [92; 93] [] (sreplace [92; 91] [] (strip_v vp))))).
-Proof. reflexivity. Qed.
+Proof. unfold convert_to_pep440, pep440_finish, pep440_names_pass, strip_v. cbv zeta. reflexivity. Qed.
 
 (* ------------------------------------------------------------------ a leading v *)
 Lemma strip_v_cons_ne c t : c <> 118 -> strip_v (c :: t) = c :: t.
@@ -123,7 +123,7 @@ Qed.
 
 (* The `name in version_pattern` tests look at the pattern including its leading v, but no part name
    contains one, so the v is simply dropped.  (For a pattern starting with vv only the first v is dropped
-   before, and the second one after: convert "vvYYYY" = "vYYYY[PYTAGNUM]" but convert "vYYYY" = "YYYY[PYTAGNUM]",
+   before, and the second one after: vvYYYY converts to vYYYY[PYTAGNUM] but vYYYY converts to YYYY[PYTAGNUM],
    hence the side condition.) *)
 Theorem convert_drops_v_prefix : forall p, prefixb [118] p = false ->
   convert_to_pep440 (118 :: p) = convert_to_pep440 p.
